@@ -10,7 +10,7 @@ CONSTANTS
   GuardAlloc = TRUE
   PageSizes <- PS1
   MaxResp = 3
-  MaxCalls = 4
+  MaxCalls = 3
   Families = {"upload"}
-  Lite = FALSE
+  Level = "export"
 INVARIANT Props
